@@ -278,6 +278,18 @@ def check_consumer(ctx, rule, f, work, work_name, forward):
             bad = True
     if bad:
         return
+    # the get blocks for as long as it takes: a time-out / non-blocking get makes the consumer thread die (queue.Empty)
+    # when the producer is slower than the limit, and the joins of the main thread then never return
+    g = gets[0]
+    nonblocking = g.func.attr != 'get' or any(k.arg == 'timeout' and not (isinstance(k.value, ast.Constant) and k.value.value is None)
+                                              for k in g.keywords) or \
+        any(k.arg == 'block' and isinstance(k.value, ast.Constant) and k.value.value is False for k in g.keywords) or \
+        (g.args and isinstance(g.args[0], ast.Constant) and g.args[0].value is False) or len(g.args) >= 2
+    if nonblocking:
+        ctx.fail(rule, f, g, 'the consumer fetches with `%s`: a bounded wait - when the next item takes longer the thread '
+                 'ends with queue.Empty, items stay unprocessed and the conversion never returns' % U(g))
+    else:
+        ctx.ok(rule, f, g, 'blocking get without time-out', nontrivial=False)
     for (n1, c1), (n2, c2) in zip(seq, seq[1:]):
         if happened_before(fm, c1[0], c2[0]):
             ctx.ok(rule, f, c2[0], '%s precedes %s on every path of the iteration' % (n1, n2))
